@@ -9,5 +9,5 @@ CONSTANTS
   Devs = {}
   Gen = FALSE
 VIEW View
-INVARIANTS NoViolation TypeOK ServedIsComplete NeverEmptyOnceRunning
+INVARIANTS NoViolation TypeOK ServedIsComplete NeverEmptyOnceRunning NeverWild
 CHECK_DEADLOCK FALSE
